@@ -77,3 +77,7 @@ func DeadAppend(xs []string, flag bool) int {
 
 // SameHost compares two URLs by bare host name (scheme and port are lost).
 func SameHost(a, b *url.URL) bool { return a.Hostname() == b.Hostname() }
+
+// Mutates writes through its argument; Reads does not.
+func Mutates(d *doc) { d.Files = nil }
+func Reads(d *doc) int { return len(d.Files) }
